@@ -10,14 +10,15 @@ Property theorems only (helpers: `Proofs/Lemmas/{Lexer,ScanRender,Tokens,Split,N
 
 `scan_render` is proved IN FULL for the token grammar of `Proofs/Lemmas/Tokens.lean`:
 chunks of inert characters (everything that is not an identifier start, backtick, `{` or `<`: operators, digits,
-brackets, commas, whitespace, newlines), the `<` operator (when no `>` follows), variables without / with an
-adjacent index `[ w1 text w2 ]`, `{ w1 name w2 }` and `< w1 name w2 >` with optional index, functions `name w (`
-with look-ahead, keywords (one generic lemma over the reflected `keyword.kwlist`), verbatim fragments; for EVERY
-choice of the whitespace strings w, w1, w2 (any Python whitespace, newlines included).  The scanner returns
-exactly the tokens' (kind, name, raw index, span), in order.
-What is NOT covered by the token grammar (and therefore only by the correspondence check): a `{` or a `<`
-followed by a later `>` used as an operator, identifiers directly followed by `.`/digits-then-letters such as
-`1e5`, an index text that is empty, starts/ends with whitespace after stripping, or contains `]`.
+brackets, commas, whitespace, newlines), the `<` operator (boundary condition: the ERROR alternative does not
+match there, e.g. because no `>` follows — `brAt_lt_none`), variables without / with an adjacent index
+`[ w1 text w2 ]`, `{ w1 name w2 }` and `< w1 name w2 >` with optional index, functions `name w (` with look-ahead,
+keywords (one generic lemma over the reflected `keyword.kwlist`), verbatim fragments; for EVERY choice of the
+whitespace strings w, w1, w2 (any Python whitespace, newlines included).  The scanner returns exactly the tokens'
+(kind, name, raw index, span), in order.  The correspondence check confirms on every run (driver kind
+`wf_check`) that the statements of the generated grammar scripts, under every layout, are such token lists.
+NOT covered by the token grammar (hence only by the correspondence check): a literal `{` that is not part of a
+parameter term, identifiers glued to a preceding number such as `1e5`, an index text that is empty or contains `]`.
 The step from scanned terms to Symbols (Symbol.combine, merge across statements) is M3 (another work package).
 -/
 namespace Fsic.C14
